@@ -283,12 +283,30 @@ func (a *oauth2IntrospectionAuthenticator) getSubjectInformation(ctx heimdall.Co
 		return nil, err
 	}
 
+	// configured assertions take precedence over those available in the metadata
+	assertions := a.a.Merge(oauth2.Expectation{
+		TrustedIssuers: []string{metadata.Issuer},
+	})
+
 	if a.isCacheEnabled() {
 		cacheKey = a.calculateCacheKey(metadata.IntrospectionEndpoint, req.URL.String(), token)
 		if entry, err := cch.Get(ctx.AppContext(), cacheKey); err == nil {
-			logger.Debug().Msg("Reusing introspection response from cache")
+			var cachedResp oauth2.IntrospectionResponse
 
-			return entry, nil
+			if err = json.Unmarshal(entry, &cachedResp); err == nil {
+				logger.Debug().Msg("Reusing introspection response from cache")
+
+				// the assertions can be overridden on the rule level and are not part of the cache key.
+				// So, the cached response must be validated using the assertions of this instance
+				if err = cachedResp.Validate(assertions); err != nil {
+					return nil, errorchain.
+						NewWithMessage(heimdall.ErrAuthentication, "access token does not satisfy assertion conditions").
+						WithErrorContext(a).
+						CausedBy(err)
+				}
+
+				return entry, nil
+			}
 		}
 	}
 
@@ -300,11 +318,6 @@ func (a *oauth2IntrospectionAuthenticator) getSubjectInformation(ctx heimdall.Co
 	if err != nil {
 		return nil, err
 	}
-
-	// configured assertions take precedence over those available in the metadata
-	assertions := a.a.Merge(oauth2.Expectation{
-		TrustedIssuers: []string{metadata.Issuer},
-	})
 
 	if err = introspectResp.Validate(assertions); err != nil {
 		return nil, errorchain.
